@@ -123,7 +123,7 @@ def methodize(body, state, extra_roots=()):
 def imports_for(src, text, extra=()):
     blk = re.search(r"(?m)^import \(\n(.*?)^\)\n", src, flags=re.S).group(1)
     std, mod = [], []
-    lines = [ln.strip() for ln in blk.splitlines() if ln.strip()] + ['"%s"' % x for x in extra]
+    lines = [ln.strip() for ln in blk.splitlines() if ln.strip()] + ['"%s"' % x for x in tuple(extra) + ("verifharness/cmd/conc/nopool",)]
     seen = set()
     for ln in lines:
         m = re.fullmatch(r'(?:(\w+|_) )?"([^"]+)"', ln)
@@ -137,6 +137,34 @@ def imports_for(src, text, extra=()):
     own = [x for x in mod if "verifharness" in x]; lib = [x for x in mod if "verifharness" not in x]
     groups = [g for g in (sorted(std), own, sorted(lib)) if g]
     return "import (\n" + "\n\n".join("\n".join(g) for g in groups) + "\n)\n"
+
+
+GUARDED = '''// guarded runs f under the panic guard in the CALLING goroutine.  The family driver runs it in a helper goroutine with a
+// watchdog; here the call stays in the long-lived worker goroutine (the race detector attributes accesses to goroutines and
+// recycles the slots of short-lived ones, which would hide accesses of successive helpers from one another), and the
+// concurrent driver's monitor watches for calls that do not return.
+func guarded(f func()) (pi *ev.PanicInfo, hang bool) { return ev.Guard(f), false }
+'''
+
+
+def unsync(body, pkg):
+    """the copied driver text must not synchronise goroutines between two library calls (see cmd/conc/nopool)"""
+    if "json.Marshal(" in body:
+        body = body.replace("json.Marshal(", "nopool.Marshal(")
+    sp = [(s_, e_) for s_, e_, n, _ in func_spans(body) if n == "guarded"]
+    if sp:
+        s_, e_ = sp[0]
+        # the comment lines directly above the function go with it
+        head = body[:s_]
+        while True:
+            m = re.search(r"(?:^|\n)(//[^\n]*\n)$", head)
+            if not m: break
+            head = head[:m.start(1)]
+        body = head + GUARDED + body[e_:]
+    for bad in ("sync.", "time.After(", "time.NewTimer(", "go func", "fmt.Sprint", "fmt.Fprint"):
+        if bad in body:
+            raise SyncError("%s: the copied text of the family driver synchronises or formats through pools (%s): adapt tools/conc_sync.py" % (pkg, bad))
+    return body
 
 
 SINK = "// Sink receives the events of one goroutine.\ntype Sink interface{ Emit(v interface{}) }\n"
@@ -199,6 +227,7 @@ def gen_state_family(pkg, drv, trace, what, first, keep=(), patches=(), drop=(),
         sp = [(s, e) for s, e, n, _ in func_spans(body) if n == name]
         if not sp: raise SyncError("%s: func %s to drop not found" % (pkg, name))
         body = body[:sp[0][0]] + body[sp[0][1]:]
+    body = unsync(body, pkg)
     state, body = state_vars(body)
     if not any(n == "w" for n, _, _ in state):
         raise SyncError("%s: the package-level writer `var w *ev.Writer` is gone: adapt tools/conc_sync.py" % pkg)
@@ -219,9 +248,9 @@ def gen_param_family(pkg, drv, trace, what, first, patches, tail, last="func rep
     """drivers whose functions already take the writer as a parameter (qos, pco) or keep it in a session struct (uepol)"""
     src = open(os.path.join(CMD, drv, "main.go")).read()
     body = cut(src, first, last, pkg)
-    body = replace_all(body, patches, pkg)
-    text = SINK + "\n// Watchdog is the period after which a call counts as not returning.\nvar Watchdog = 2 * time.Second\n\n" + body + tail
-    if re.search(r"(?m)^var (?!Watchdog|rulesCodec|descsCodec|allOps|nullJSON)\w+", text):
+    body = unsync(replace_all(body, patches, pkg), pkg)
+    text = SINK + "\n" + body + tail
+    if re.search(r"(?m)^var (?!rulesCodec|descsCodec|allOps|nullJSON)\w+", text):
         raise SyncError("%s: new package-level variable in cmd/%s: %s" % (pkg, drv, re.findall(r"(?m)^var \w+", text)))
     return HEAD % dict(drv=drv, pkg=pkg, what=what, trace=trace) + imports_for(src, text, ("os", "encoding/json", "time")) + "\n" + text
 
@@ -450,7 +479,7 @@ def gen_sec():
     body = cut(src, "// Case is one point of the TLC-generated lattice.", "func replay(in, out string)", "fsec")
     if re.search(r"(?m)^var \w+", body): raise SyncError("fsec: new package-level variable in cmd/sec")
     if "func runCase(rng *rand.Rand, c Case) Ev {" not in body: raise SyncError("fsec: runCase(rng, c) Ev is gone: adapt tools/conc_sync.py")
-    text = body + "\n" + SINK + FSEC_TAIL
+    text = unsync(body, "fsec") + "\n" + SINK + FSEC_TAIL
     return HEAD % dict(drv="sec", pkg="fsec", what="the call function of cmd/sec (C06 / C07: ciphering and integrity entry points)", trace="Trace_C06/Trace_C07") + \
         imports_for(src, text, ("os", "encoding/json", "math/rand")) + "\n" + text
 
@@ -462,8 +491,18 @@ type Runner struct{ W Sink }
 // NewRunner makes the runner of one goroutine.
 func NewRunner(w Sink) *Runner { return &Runner{W: w} }
 
-// Load reads a case file (the format cmd/ietypes replays).
-func Load(path string) []Case { return load(path) }
+// Load reads a case file (the format cmd/ietypes replays).  Every accessor pair is bound a few times here, single-threaded:
+// the reflect package keeps method layouts in a mutex-guarded cache while keys are new, which would order the goroutines
+// at each first use of a type.  Binding only looks the methods up; no accessor (no library code) runs.
+func Load(path string) []Case {
+	cs := load(path)
+	for pass := 0; pass < 3; pass++ {
+		for i := range cs {
+			bind(cs[i].Type, cs[i].Field)
+		}
+	}
+	return cs
+}
 
 // Finish: nothing is held back in this family.
 func (r *Runner) Finish() {}
@@ -492,7 +531,22 @@ def gen_ie():
     if vars_ != ["none"]: raise SyncError("f09: package-level variables of cmd/ietypes changed: %s" % vars_)
     for need in ("func bind(typ, field string) *binding {", "func (b *binding) run(c *Case, p *Elem, v int, vs []int) Ev {", "func value(kind string, raw json.RawMessage) (int, []int) {", "func load(path string) []Case {"):
         if need not in body: raise SyncError("f09: %r is gone from cmd/ietypes: adapt tools/conc_sync.py" % need)
-    text = SINK + "\n" + body + F09_TAIL
+    # scalar accessors are called directly (generated closures, see Direct in reg_gen.go / reg_stub.go): reflect.Value.Call
+    # and reflect method values take their frames from a sync.Pool
+    body = replace_all(body, [("\treturn b\n}\n\nfunc (b *binding) write(p *Elem) {",
+                               "\tif a, ok := Direct[typ+\".\"+field]; ok {\n\t\tx := b.rv.Interface()\n\t\tswitch {\n\t\tcase a.G8 != nil && b.g8 != nil:\n"
+                               "\t\t\tb.g8, b.s8 = func() uint8 { return a.G8(x) }, func(v uint8) { a.S8(x, v) }\n\t\tcase a.G16 != nil && b.g16 != nil:\n"
+                               "\t\t\tb.g16, b.s16 = func() uint16 { return a.G16(x) }, func(v uint16) { a.S16(x, v) }\n\t\t}\n\t}\n"
+                               "\treturn b\n}\n\nfunc (b *binding) write(p *Elem) {")], "f09")
+    text = SINK + """
+// Acc: one scalar accessor pair as plain closures (generated, reg_gen.go)
+type Acc struct {
+	G8  func(x any) uint8
+	S8  func(x any, v uint8)
+	G16 func(x any) uint16
+	S16 func(x any, v uint16)
+}
+""" + "\n" + unsync(body, "f09") + F09_TAIL
     return HEAD % dict(drv="ietypes", pkg="f09", what="binding and the per-case run of cmd/ietypes (C09: Get/Set accessor pairs of the information elements)", trace="Trace_C09") + \
         imports_for(src, text, ("os", "encoding/json")) + "\n" + text
 
@@ -510,7 +564,7 @@ def generate():
                   "\t// the sequential driver runs such an input in a self-limiting child process (possible endless walk); the concurrent\n"
                   "\t// driver never runs it (the case lists exclude them, a stray one is skipped)\n\tif risky {\n\t\treturn\n\t}\n")],
         drop=["ladnChild"], norm=F13_NORM)
-    wd = [("case <-time.After(2 * time.Second):", "case <-time.After(Watchdog):"), ("w *ev.Writer", "w Sink")]
+    wd = [("w *ev.Writer", "w Sink")]
     out["f15"] = gen_param_family("f15", "qos", "Trace_C15", "value builders, projections, roundTrip and unmarshal of cmd/qos (C15: QoS rules and flow descriptions)", "type Comp struct",
                                   wd + [("\tBytes []int           `json:\"bytes\"`\n}", "\tBytes []int           `json:\"bytes\"`\n\n\trules []Rule // X parsed at load time\n\tdescs []Desc\n}")], F15_TAIL)
     src16 = open(os.path.join(CMD, "pco", "main.go")).read()
@@ -520,8 +574,7 @@ def generate():
     out["f18"] = gen_param_family(
         "f18", "uepol", "Trace_C18", "build / decode / PLMN rows of cmd/uepol (C18: the UE policy container codec)",
         "// ---------------------------------------------------------------- structures as chosen by the generator",
-        [("t := time.NewTimer(2 * time.Second)", "t := time.NewTimer(Watchdog)"),
-         ("var hangs = map[string]int{}\n", ""), ("hangs[", "s.hangs["),
+        [("var hangs = map[string]int{}\n", ""), ("hangs[", "s.hangs["),
          ("type sess struct{ w *ev.Writer }", "// Runner runs cases for one goroutine (cmd/uepol: sess); the count of calls that did not return is kept per goroutine.\n"
           "type Runner struct {\n\tw     Sink\n\thangs map[string]int\n}\n\n// NewRunner makes the runner of one goroutine.\nfunc NewRunner(w Sink) *Runner { return &Runner{w: w, hangs: map[string]int{}} }"),
          ("(s *sess)", "(s *Runner)")], F18_TAIL)
